@@ -19,7 +19,7 @@ Definition on_pattern_cycle (k : akey) (d : snode) (id : nat) : Prop :=
 
 Definition on_feimage_cycle (d : snode) (id : nat) : Prop :=
   exists p fe link u, In p (sflat d) /\ In fe (s_kids p) /\ s_tag fe = TFeImage /\ node_attr d AHref fe = Some link /\
-    attr_link AFilter (s_attrs link) = Some u /\ Some u = s_name p /\ s_id link = id.
+    In (Some u) (flist (s_attrs link)) /\ Some u = s_name p /\ s_id link = id.
 
 Definition on_short_cycle (d : snode) (id : nat) (k : akey) : Prop :=
   match k with
@@ -75,7 +75,7 @@ Proof.
   apply in_flat_map in H. destruct H as (fe & Hfe & H).
   destruct (tag_eqb (s_tag fe) TFeImage) eqn:Et; [|destruct H]. apply tag_eqb_eq in Et.
   destruct (node_attr d AHref fe) as [link|] eqn:El; [|destruct H].
-  destruct (attr_link AFilter (s_attrs link)) as [u|] eqn:Eu; [|destruct H].
+  apply in_flat_map in H. destruct H as ([u|] & Hu & H); [|destruct H].
   destruct (optN_eqb (Some u) (s_name p)) eqn:E; [|destruct H]. destruct H as [<-|[]].
   exists p, fe, link, u. repeat split; try assumption. apply optN_eqb_eq, E.
 Qed.
@@ -112,13 +112,22 @@ Proof.
   exists ln, n2, l2. repeat split; assumption.
 Qed.
 
+Lemma flist_set_none_back id k0 n u : In (Some u) (flist (s_attrs (set_none id k0 n))) -> In (Some u) (flist (s_attrs n)).
+Proof.
+  rewrite set_none_attrs. destruct (Nat.eqb (s_id n) id); [|exact (fun H => H)].
+  unfold flist. generalize (s_attrs n). intro a. induction a as [|[k' v] r IH]; [exact (fun H => H)|].
+  assert (Hk : forall v1 v2, is_filter_key (k', v1) = is_filter_key (k', v2)) by reflexivity.
+  cbn [attrs_set_none]. destruct (akey_eqb k0 k'); cbn [filter]; rewrite ?(Hk None v); destruct (is_filter_key (k', v));
+    cbn [map snd]; try exact IH; intros [H|H]; try discriminate H; [right; apply IH, H|left; exact H|right; apply IH, H].
+Qed.
+
 Lemma feimage_cycle_back id0 k0 d id : on_feimage_cycle (set_none id0 k0 d) id -> on_feimage_cycle d id.
 Proof.
   intros (p' & fe' & link' & u & Hp & Hfe & Htag & Hl & Hu & Hn & Hid).
   apply in_sflat_set_none in Hp. destruct Hp as (p & -> & Hp).
   rewrite set_none_kids in Hfe. apply in_map_iff in Hfe. destruct Hfe as (fe & <- & Hfe).
   apply node_attr_set_none in Hl. destruct Hl as (link & -> & Hl).
-  apply attr_link_set_none_node in Hu. rewrite set_none_tag in Htag. rewrite set_none_name in Hn. rewrite set_none_id in Hid.
+  apply flist_set_none_back in Hu. rewrite set_none_tag in Htag. rewrite set_none_name in Hn. rewrite set_none_id in Hid.
   exists p, fe, link, u. repeat split; assumption.
 Qed.
 
@@ -212,7 +221,7 @@ Fixpoint skel (x : snode) : skn :=
 Lemma attrs_set_none_keys k a : map fst (attrs_set_none k a) = map fst a.
 Proof.
   induction a as [|[k' v] r IH]; [reflexivity|]. cbn [attrs_set_none].
-  destruct (akey_eqb k k'); cbn [map fst]; [reflexivity|rewrite IH; reflexivity].
+  destruct (akey_eqb k k'); cbn [map fst]; rewrite IH; reflexivity.
 Qed.
 
 Lemma skel_set_none id k : forall x, skel (set_none id k x) = skel x.
@@ -240,7 +249,7 @@ Proof.
   intros Hne. induction a as [|[k' v'] r IH]; [exact (fun H => H)|]. cbn [attrs_set_none].
   destruct (akey_eqb k0 k') eqn:E; intros [H|H].
   - injection H as -> ->. apply akey_eqb_eq in E. congruence.
-  - right. exact H.
+  - right. apply IH, H.
   - left. exact H.
   - right. apply IH, H.
 Qed.
@@ -250,7 +259,7 @@ Proof.
   induction a as [|[k' v'] r IH]; [exact (fun H => H)|]. cbn [attrs_set_none].
   destruct (akey_eqb k0 k') eqn:E; intros [H|H].
   - discriminate H.
-  - right. exact H.
+  - right. apply IH, H.
   - left. exact H.
   - right. apply IH, H.
 Qed.
@@ -326,7 +335,8 @@ Proof.
   intros (p & fe & link & u & Hp & Hfe & Htag & Hl & Hu & Hn & Hid).
   unfold on_feimage_cycle_b. apply existsb_exists. exists p. split; [exact Hp|].
   apply existsb_exists. exists fe. split; [exact Hfe|].
-  rewrite Htag, Hl, Hu, Hid, Nat.eqb_refl, (optN_eqb_refl' _ _ Hn). reflexivity.
+  rewrite Htag, Hl, Hid, Nat.eqb_refl. cbn [tag_eqb andb]. apply existsb_exists. exists (Some u). split; [exact Hu|].
+  apply optN_eqb_refl', Hn.
 Qed.
 
 Lemma short_cycle_b d id k : on_short_cycle d id k -> on_short_cycle_b d id k = true.
